@@ -4,3 +4,5 @@ pub mod refcal;
 pub mod util;
 #[cfg(kani)]
 mod c19;
+#[cfg(kani)]
+mod c01;
